@@ -75,13 +75,17 @@ def run_body_batch(batch):
     return rec
 
 
+_KNOWN_TEXTS = {"", "grp", "plain1", "plain2", "plain3", "plain4", "h2", "first"}
+
+
 def run_position(item):
     """item = {"id", "seg", "where", "convert"}: one document with the segment in one text position."""
     import polars as pl
     import rtflite as rtf
     from rtfreader import parse
     seg, where, conv = item["seg"], item["where"], item["convert"]
-    text = "~#~" + seg + "~$~"
+    bare = bool(item.get("bare"))       # the segment is the WHOLE text of its position (no markers around it)
+    text = seg if bare else "~#~" + seg + "~$~"
     kw = {"text_convert": conv}
     df = pl.DataFrame({"g": ["grp", "grp"], "c": ["plain1", "plain2"]})
     args = dict(rtf_title=None, rtf_column_header=[])
@@ -131,7 +135,7 @@ def run_position(item):
     hit = None
     for b in blocks:
         for c in (b.cells if b.kind == "row" else [b] if b.kind == "para" else []):
-            if c.text.startswith("~#~"):
+            if (c.text.startswith("~#~") and not bare) or (bare and c.text not in _KNOWN_TEXTS):
                 hit = c
                 break
         if hit:
@@ -139,8 +143,11 @@ def run_position(item):
     e = {"cps": [ord(x) for x in seg], "dec": [-1], "us": [], "fb": [], "uc": 1}
     if hit is not None:
         e = _seg_event(seg, hit)
-        t = hit.text[3:]
-        e["dec"] = [ord(x) for x in (t[:-3] if t.endswith("~$~") else t + "?")]
+        if bare:
+            e["dec"] = [ord(x) for x in hit.text]
+        else:
+            t = hit.text[3:]
+            e["dec"] = [ord(x) for x in (t[:-3] if t.endswith("~$~") else t + "?")]
     rec["ev"] = [e]
     rec["c"] = {"lexerrs": len(d.lexerrs), "fallback_errs": len(d.fallback_errs), "found": 1 if hit is not None else 0, "expected": 1}
     return rec
